@@ -45,10 +45,10 @@ def rule_components(ctx):
     ix = ctx.ix
     sub = engine.Ctx(ctx.prop, ix, ctx.config)
     sub.cur_rule = ctx.cur_rule
-    c04.rule_same_words(sub)
+    c04.rule_same_words(sub, strict=True)
     n = 0
     for i in sub.insts:
-        if ":From:" in i.key or "four-distinct-tables" in i.key:
+        if ":From:" in i.key or "four-distinct-tables" in i.key or (":word" in i.key and "ZKey::" in i.key):
             ctx.insts.append(i)
             n += 1
     ctx.functions |= sub.functions
